@@ -112,6 +112,9 @@ pub(crate) fn parse_directive(jsx_attr: &JSXAttr, is_component: bool) -> Directi
             modifiers = Some(splitted.map(Atom::from).collect());
             value = (**expr).clone();
         }
+    } else if let Some(JSXAttrValue::Lit(lit)) = &jsx_attr.value {
+        modifiers = Some(splitted.map(Atom::from).collect());
+        value = Expr::Lit(lit.clone());
     } else {
         modifiers = Some(splitted.map(Atom::from).collect());
         value = Expr::Ident(quote_ident!("").into());
